@@ -74,6 +74,9 @@ func (s *trieSys) Ops() []seqmc.Op {
 }
 
 func (s *trieSys) OpClass(o seqmc.Op) string {
+	if o.N != "Put" {
+		return o.N
+	}
 	k := o.S[0]
 	if _, ok := s.model[k]; ok {
 		return "Put(existing-key)"
@@ -87,8 +90,34 @@ func (s *trieSys) OpClass(o seqmc.Op) string {
 }
 
 func (s *trieSys) Apply(o seqmc.Op, c *seqmc.Ctx) {
+	switch o.N {
+	case "Get", "Contains": // query operations (only in the alphabet when queries turned out to be stateful)
+		q := o.S[0]
+		want, present := s.model[q]
+		if o.N == "Contains" {
+			if has := s.t.Contains(q); has != present {
+				c.Fail("Trie.Contains/wrong", "Contains(%q) = %t, stored keys %q", q, has, s.sortedKeys(""))
+			}
+			return
+		}
+		if v, ok := s.t.Get(q); ok != present || (ok && v != want) {
+			c.Fail("Trie.Get/wrong", "Get(%q) = (%d,%t), want (%d,%t)", q, v, ok, want, present)
+		}
+		return
+	}
 	s.t.Put(o.S[0], o.I[0])
 	s.model[o.S[0]] = o.I[0]
+}
+
+// QueryOps: single lookups as operations, for implementations whose lookups keep private state.
+func (s *trieSys) QueryOps() []seqmc.Op {
+	var ops []seqmc.Op
+	for _, q := range s.queries {
+		if len(q) >= 1 && len(q) <= 2 {
+			ops = append(ops, seqmc.Op{N: "Get", S: []string{q}}, seqmc.Op{N: "Contains", S: []string{q}})
+		}
+	}
+	return ops
 }
 
 func (s *trieSys) sortedKeys(prefix string) []string {
